@@ -27,6 +27,12 @@ class NestedDeadlock(SimError):
 
 
 class SimLoop(asyncio.BaseEventLoop):
+    _closed = True  # half-constructed copies (see __reduce_ex__) count as closed for BaseEventLoop.__del__
+
+    def __reduce_ex__(self, protocol):
+        # like a real selector event loop (which holds locks and an epoll object), the loop cannot be copied or pickled
+        raise TypeError("cannot pickle 'SimLoop' object")
+
     def __init__(self, max_ticks=20000):
         super().__init__()
         self._vclock = 0.0
